@@ -459,7 +459,7 @@ def expand_aliases(func, node, limit: int = 6):
     for n in ast.walk(func):
         if isinstance(n, ast.Assign) and len(n.targets) == 1 and isinstance(n.targets[0], ast.Name) and stores.get(n.targets[0].id) == 1 and chain(n.value) \
                 and not isinstance(n.value, ast.Name):
-            single[n.targets[0].id] = n.value
+            single[n.targets[0].id] = _strip(n.value)
     out = _strip(node)
     for _ in range(limit):
         before = ast.dump(out)
@@ -486,6 +486,10 @@ def bool_eval(test, atoms):
         if k not in atoms:
             return None
         return atoms[k] if isinstance(test.ops[0], ast.Is) else (not atoms[k])
+    if isinstance(test, ast.Compare) and len(test.ops) == 1 and isinstance(test.ops[0], (ast.NotIn, ast.NotEq, ast.IsNot)):
+        pos = {ast.NotIn: ast.In, ast.NotEq: ast.Eq, ast.IsNot: ast.Is}[type(test.ops[0])]()
+        v = atoms.get(U(ast.Compare(left=test.left, ops=[pos], comparators=test.comparators)))
+        return None if v is None else (not v)
     if isinstance(test, ast.IfExp):
         t = bool_eval(test.test, atoms)
         if t is None:
@@ -525,6 +529,9 @@ def bool_atoms(test):
     elif isinstance(test, ast.Compare) and len(test.ops) == 1 and isinstance(test.comparators[0], ast.Constant) and test.comparators[0].value is None \
             and isinstance(test.ops[0], (ast.Is, ast.IsNot)):
         out.add(f"{U(test.left)} is None")
+    elif isinstance(test, ast.Compare) and len(test.ops) == 1 and isinstance(test.ops[0], (ast.NotIn, ast.NotEq, ast.IsNot)):
+        pos = {ast.NotIn: ast.In, ast.NotEq: ast.Eq, ast.IsNot: ast.Is}[type(test.ops[0])]()
+        out.add(U(ast.Compare(left=test.left, ops=[pos], comparators=test.comparators)))
     else:
         out.add(U(test))
     return out
